@@ -251,9 +251,9 @@ func runC04(c *Ctx) {
 		g := NewGate(c.P)
 		g.Inline = inlineOnly()
 		// membership helpers are opaque, deterministic predicates
-		eachInstr(cj.fn, func(_ *ssa.BasicBlock, in ssa.Instruction) {
+		eachInstrG(c.P, cj.fn, func(_ *ssa.BasicBlock, in ssa.Instruction) {
 			if ci, ok := in.(ssa.CallInstruction); ok {
-				if cal := ci.Common().StaticCallee(); cal != nil && c.P.IsLibFunc(cal) {
+				if cal := ci.Common().StaticCallee(); cal != nil && c.P.IsLibFunc(cal) && !c.P.IsNewHelper(cal) {
 					g.Pure[FuncName(cal)] = true
 				}
 			}
@@ -432,9 +432,9 @@ func runC04(c *Ctx) {
 	if cj := byRole["$denyallow"]; cj != nil {
 		g := NewGate(c.P)
 		g.Inline = inlineOnly()
-		eachInstr(cj.fn, func(_ *ssa.BasicBlock, in ssa.Instruction) {
+		eachInstrG(c.P, cj.fn, func(_ *ssa.BasicBlock, in ssa.Instruction) {
 			if ci, ok := in.(ssa.CallInstruction); ok {
-				if cal := ci.Common().StaticCallee(); cal != nil && c.P.IsLibFunc(cal) {
+				if cal := ci.Common().StaticCallee(); cal != nil && c.P.IsLibFunc(cal) && !c.P.IsNewHelper(cal) {
 					g.Pure[FuncName(cal)] = true
 				}
 			}
@@ -486,9 +486,9 @@ func runC04(c *Ctx) {
 	if cj := byRole["pattern"]; cj != nil {
 		g := NewGate(c.P)
 		g.Inline = inlineOnly()
-		eachInstr(cj.fn, func(_ *ssa.BasicBlock, in ssa.Instruction) {
+		eachInstrG(c.P, cj.fn, func(_ *ssa.BasicBlock, in ssa.Instruction) {
 			if ci, ok := in.(ssa.CallInstruction); ok {
-				if cal := ci.Common().StaticCallee(); cal != nil && c.P.IsLibFunc(cal) && cal.Signature.Results().Len() == 1 && typeStr(cal.Signature.Results().At(0).Type()) == "bool" {
+				if cal := ci.Common().StaticCallee(); cal != nil && c.P.IsLibFunc(cal) && !c.P.IsNewHelper(cal) && cal.Signature.Results().Len() == 1 && typeStr(cal.Signature.Results().At(0).Type()) == "bool" {
 					g.Pure[FuncName(cal)] = true
 				}
 			}
